@@ -25,6 +25,18 @@ claim("C13",
       "Theorem uptime_eq_spec: for all timestamp pairs in [0,2^32) (wrap-around included), all elapsed times, all 9-bit flag values / fragment status and all thresholds in the documented domain, the integer-arithmetic model of fingerprint_uptime equals the rational-arithmetic reading of the property (ticks mod 2^32, gates, backward step, raw = ticks*1000/ms, floor, rounding, minutes, wrap days); gate_types; roundFrequency_spec for every integer. Tied to the code through real Scapy packets with time.time_ns controlled, boundary pools, exact threshold hits and round_frequency for all integers 0..3000.",
       BASE_NOTE + "Float arithmetic is modelled by exact rationals (agreement argument in DESIGN 3.4, not a theorem; exercised on the equality cases). Threshold domain: 0 < min_scale, min_wait >= 1, grace >= 1.",
       "Lean 4 refinement proof (integer model = rational spec, Mathlib ordered-field lemmas) + differential correspondence with controlled clock", "5 C13")
+claim("C03",
+      "Theorems parseOpts_eq_interp (TCPOptions.parse = per-token interpretation of the option-area grammar, for every byte string), tokenize_bytes (tokens partition the buffer in wire order), interp_layout_prefix, value_only_from_wellformed (MSS/scale/timestamp only from complete options of exactly the right length), ipv4_quirks / ipv6_quirks / tcp_quirks (each quirk iff the documented header-bit condition; ts2+ on the masked type SYN), ipv4_fragment, tcpType_syn_iff, sig_fields. The byte-level decoding model is tied to parse_packet / TCPPacketSignature.from_packet by packets generated as bytes: all 512 flag values, IP header boundaries, (kind,length) option probes, random packets.",
+      BASE_NOTE + "Scapy's dissection of well-framed packets is modelled as RFC 791/8200/793 field extraction, not verified. Open finding F26 (Scapy cannot dissect a TCP-AO option of length 3) is listed in known_findings.json.",
+      "Lean 4 refinement proof (parser = tokenizer + per-token interpretation; quirk iff header bits) + differential correspondence on byte-level packets", "5 C03")
+claim("C04",
+      "Model side: the option walk is defined by well-founded recursion that Lean accepts only because of the len>=2 advance (termination proof), layout_le_bytes (layout entries <= option bytes), tokenize_length_le (iterations <= bytes), all for every byte string. Runtime side (decisive for Scapy / h11 behaviour the model cannot exhibit): oracle on the real code over well-framed, truncated, inconsistent and hostile packets and HTTP payloads - exception category in {none, PacketError}, deterministic executed-line bound proportional to input length, 4 s watchdog.",
+      BASE_NOTE + "PARTIAL: what Scapy does with ill-framed bytes and wall-clock time / memory are runtime behaviour outside the model; they are monitored, not proved. Work is measured as executed Python lines inside pyp0f.",
+      "Lean 4 termination + bound theorems for the option walk; runtime oracle (exception category, executed-line bound) on generated hostile inputs", "5 C04")
+claim("C18",
+      "Theorems dumpLayout_parse (for every layout over kinds 0..255 incl. unknown kinds and every EOL padding 0..255 the text printed by TCPOptions.dump parses back to exactly that layout and padding) and dumpQuirks_parse (for every one of the 2^17 quirk sets legal for the stated version, dump_quirks text parses back to exactly that set), proved pointwise / by induction, using Std's Nat.toNat?_repr and core's splitOn_intercalate. Tied to the code by printing real extracted packets, parsing and matching them (must be exact) and by function-level round trips over arbitrary layouts / masks.",
+      BASE_NOTE + "Texts are ASCII. The whole-signature round trip (printed signature matches its packet exactly) is checked by correspondence + oracle; its Lean theorem is part of C09's parse/render work.",
+      "Lean 4 round-trip proofs (induction over layout / quirk list) + differential correspondence", "5 C18")
 
 ALL = [f"C{i:02d}" for i in range(1, 19)]
 checks = []
